@@ -40,7 +40,7 @@ ASSUMPTIONS = [
     'relabel: the RESULTING key list is duplicate-free (colliding renames have no defined result) - new labels may well be other existing keys (swaps, rotations, permutation lists, prefix chains are generated); the "full list of new keys" form is used only '
     'on mappings with >= 2 keys (a one-element list is indistinguishable from a single prefix/suffix/ignored string in the *args idiom)',
     'Dict.__call__: every parameter of a callable value names a key of the mapping after the non-callable keywords were applied, or another '
-    'callable keyword; no self-loops (d(a = lambda a: ...) is the documented update-from-old-value idiom); parameter and key names are never "key" or "self"',
+    'callable keyword; no self-loops (d(a = lambda a: ...) is the documented update-from-old-value idiom); a callable takes a parameter named `key` only when the mapping has a member named "key" (a base key, a plain keyword or a derived key) - then the member wins; without such a member apply() passes the NAME of the key being defined, documented behaviour that is kept out; names are never "self"',
 ]
 
 # ----------------------------------------------------------------------------- shared helpers
@@ -78,7 +78,7 @@ def _ident(a, b):
 
 _U_INT = st.integers(-1, 4)
 _U_STR = st.sampled_from(['a', 'b', '', 'ab'])
-_U_TUP = st.sampled_from([['tuple', [1, 2]], ['tuple', []], ['tuple', ['a']], ['tuple', [1]], ['tuple', [1, ['tuple', [2]]]], ['tuple', [None, 'a']]])
+_U_TUP = st.sampled_from([['tuple', [1, 2]], ['tuple', []], ['tuple', ['a']], ['tuple', [1]], ['tuple', [1, ['tuple', [2]]]], ['tuple', [None, 'a']], ['tuple', ['a', 'b']]])
 _U_ALIAS = st.sampled_from([1.0, True, 0.0, False, 2.0, 2.5])
 _U_NAN = st.integers(0, 1).map(lambda k: ['nan', k])
 _U_ELEM = st.one_of(_U_INT, _U_INT, _U_STR, st.none(), _U_TUP, _U_ALIAS, _U_NAN)
@@ -93,13 +93,25 @@ def _ulist_case(draw):
     pool = draw(st.lists(_U_ELEM, min_size=npool, max_size=npool))
     # the initial list draws from the first m pool entries, so that elements outside it exist as well
     m = draw(st.integers(max(1, npool - 4), npool))
+    tuple_of_members = draw(st.sampled_from([False] * 8 + [True]))
+    if tuple_of_members:
+        # a member that is a tuple OF other members: u - (a, b) must remove that one member, never a and b
+        scalars = [v for v in pool[:m] if not isinstance(v, list)]
+        if len(scalars) >= 1:
+            pool = [['tuple', [scalars[0], scalars[-1]]]] + pool
+            npool, m = npool + 1, m + 1
+        else:
+            tuple_of_members = False
     inside = st.integers(0, m - 1)
     anywhere = st.integers(0, npool - 1)
     init = [draw(inside) for _ in range(draw(st.sampled_from([0, 1, 2, 3, 4, 4, 5, 6, 7, 9])))]
     ctor = draw(st.sampled_from(['list', 'list', 'tuple', 'ulist'])) if init else draw(st.sampled_from(['list', 'noarg', 'tuple']))
     ops = []
-    for _ in range(draw(st.sampled_from([1, 1, 2, 3]))):
+    for k in range(draw(st.sampled_from([1, 1, 2, 3]))):
         op = draw(st.sampled_from(_U_OPS))
+        if tuple_of_members and k == 0:
+            ops.append([op, 'elem', 0])
+            continue
         kind = draw(st.sampled_from(['elem', 'elem', 'list', 'list', 'list', 'ulist', 'ulist', 'fingerprint']))
         if kind == 'elem':
             ops.append([op, kind, draw(st.one_of(inside, anywhere))])
@@ -295,6 +307,13 @@ def run_ulist_ops(spec):
         cls.append('overlap=' + overlap)
         if kind == 'elem':
             cls.append('elem_present' if n_in else 'elem_absent')
+            if x is None:
+                cls.append('none_elem_operand_present' if n_in else 'none_elem_operand_absent')
+            if isinstance(x, tuple):
+                # a tuple is ONE element: only the member equal to the tuple is concerned, never the members listed inside it
+                cls.append('tuple_elem_operand')
+                if any(_in(i, before) for i in x):
+                    cls.append('tuple_elem_operand_whose_items_are_members')
         else:
             if not xs:
                 cls.append('empty_operand')
@@ -972,6 +991,19 @@ def run_call(spec):
         cls.append('callable_returns_falsy')
     if nd == 0:
         cls.append('no_callables')
+    member_key = 'key' in bd or 'key' in names
+    takes_key = [n for n in deps if 'key' in deps[n]]
+    if member_key:
+        cls.append('member_named_key')
+        cls.append('member_named_key=' + ('derived' if 'key' in deps else 'plain_keyword' if 'key' in names else 'base'))
+        if 'key' in deps and 'key' in bd:
+            cls.append('member_named_key_redefined')
+        if takes_key:
+            cls.append('callable_takes_member_named_key')
+            if len(takes_key) < len([n for n in deps if n != 'key']):
+                cls.append('callables_with_and_without_key_argument')
+    elif takes_key:
+        raise HarnessError("a callable takes `key` but the mapping has no member 'key' (outside the domain, see ASSUMPTIONS)")
     if len(bd) >= 64:
         cls.append('base_keys>=64')
     if any('v' in e for _, e in kw):
@@ -1020,6 +1052,27 @@ def _call_case(draw, tier):
             j = draw(st.integers(i + 1, nd - 1))
             if derived[j] not in fdef[derived[i]]:
                 fdef[derived[i]] = fdef[derived[i]] + [derived[j]]
+    # a member literally named 'key': Dict.__call__ hands key=<name being defined> to apply as a DEFAULT parameter, which the mapping's own member must trump
+    keymode = draw(st.sampled_from([None, None, None, 'base', 'plain', 'derived', 'derived_over_old']))
+    if keymode in ('derived', 'derived_over_old') and nd:
+        old = derived[draw(st.integers(0, nd - 1))]
+        derived = ['key' if n == old else n for n in derived]
+        fdef = {('key' if n == old else n): ['key' if a == old else a for a in args] for n, args in fdef.items()}
+        base = [[('key' if k == old else k), v] for k, v in base]
+        if keymode == 'derived_over_old' and 'key' not in dict(base):
+            base.append(['key', draw(st.sampled_from([-9, 0, None]))])
+        i = derived.index('key')
+        for m in derived[i + 1:]:
+            if 'key' not in fdef[m] and draw(st.booleans()):
+                fdef[m] = fdef[m] + ['key']
+    elif keymode in ('base', 'plain') or (keymode and not nd):
+        if keymode == 'plain' and len(plain) < 2 and not (allperm and nd + len(plain) >= 6):
+            plain.append(['key', draw(st.integers(20, 29))])
+        else:
+            base.append(['key', draw(st.sampled_from([7, 8, 0, None]))])
+        for m in derived:
+            if draw(st.booleans()):
+                fdef[m] = list(draw(st.permutations(fdef[m] + ['key'])))
     kw = [[n, dict({'f': fdef[n]}, **({'r': draw(st.sampled_from(['none', 'zero']))} if draw(st.integers(0, 7)) == 0 else {}))] for n in derived]
     kw = kw + [[n, {'v': v}] for n, v in plain]
     kw = list(draw(st.permutations(kw)))
@@ -1093,6 +1146,13 @@ def _enum_spec(gi, shadow, order):
     n, edges = _graphs()[gi]
     names = _D_NAMES[:n]
     base = [['x', 1], ['y', 2]]
+    bx = 'x'
+    if shadow == 3:
+        names = ['key'] + names[1:]             # derived key 0 is literally named 'key' (and re-defines an old member 'key')
+        base += [[m, -1 - i] for i, m in enumerate(names)]
+    elif shadow == 4:
+        bx = 'key'                              # the base key read by every even derived key is literally named 'key'
+        base = [['key', 1], ['y', 2]]
     if shadow == 1:
         base += [[m, -1 - i] for i, m in enumerate(names)]
     elif shadow == 2:
@@ -1101,7 +1161,7 @@ def _enum_spec(gi, shadow, order):
     for i in range(n):
         args = [names[j] for (a, j) in edges if a == i]
         if i % 2 == 0:
-            args = args + ['x']
+            args = args + [bx]
         if i % 3 == 0:
             args = ['y'] + args
         kw.append([names[i], {'f': args}])
@@ -1110,13 +1170,13 @@ def _enum_spec(gi, shadow, order):
 
 def enum_call_perms(tier):
     graphs = _graphs()
-    total = sum(3 * len(list(itertools.permutations(range(n)))) for n, _ in graphs)
+    total = sum(5 * len(list(itertools.permutations(range(n)))) for n, _ in graphs)
 
     def chunker(i, nchunks):
         for gi in range(i, len(graphs), nchunks):
             n = graphs[gi][0]
             for order in itertools.permutations(range(n)):
-                for shadow in (0, 1, 2):
+                for shadow in (0, 1, 2, 3, 4):
                     yield _enum_spec(gi, shadow, list(order))
     return total, chunker
 
@@ -1129,7 +1189,7 @@ def _enum_sample(draw):
     cand = [gi for gi, g in enumerate(graphs) if g[0] == n]
     gi = cand[draw(st.integers(0, len(cand) - 1))]
     order = list(draw(st.permutations(list(range(n)))))
-    return _enum_spec(gi, draw(st.sampled_from([0, 1, 1, 2])), order)
+    return _enum_spec(gi, draw(st.sampled_from([0, 1, 1, 2, 3, 4])), order)
 
 
 # ----------------------------------------------------------------------------- registry
@@ -1142,6 +1202,7 @@ SUBS = [
              'non-trivial = some list/ulist operand overlaps the current ulist partially and (operand or initial list) has repeated elements',
         floor=0.12, class_floors={'dup_in_operand': 0.2, 'overlap=partial': 0.2, 'elem_present': 0.1, 'elem_absent': 0.05,
                                   'op&': 0.15, 'op-': 0.15, 'op+': 0.15, 'op|': 0.15, 'kind=ulist': 0.1, 'equal_across_types': 0.005,
+                                  'tuple_elem_operand': 0.03, 'tuple_elem_operand_whose_items_are_members': 0.03, 'none_elem_operand_present': 0.005,
                                   'fingerprint_operand': 0.05, 'fingerprint=self': 0.005, 'fingerprint=same_ends': 0.005, 'fingerprint=reversed': 0.005,
                                   'noop_result_equals_left_operand': 0.2, 'falsy_elem_operand': 0.05, 'result_empty': 0.05}),
     Sub('ulist_long', lambda tier: _ulist_long_case(), run_ulist_ops, quick=1500, thorough=6000,
@@ -1174,15 +1235,17 @@ SUBS = [
                                  'relabel_permutes_existing_keys': 0.03}),
     Sub('call_graph', lambda tier: _call_case(tier), run_call, quick=2000, thorough=3000,
         rule='Dict / subclass with 0-4 base keys; keywords = 1-6 callable (derived) keys whose parameters name base keys, plain keywords or other derived keys '
-             '(random dag over a hidden rank order; 1 in 4 gets 1-2 back edges, no self-loops; 1 in 3 derived names RE-DEFINES a key of d whose old value is an int, 0 or None; 1 callable in 8 returns None / 0; 1 case in 8 has 70 more base keys; names are prefixes / concatenations of one another) plus 0-2 plain keywords; '
+             '(random dag over a hidden rank order; 1 in 4 gets 1-2 back edges, no self-loops; 1 in 3 derived names RE-DEFINES a key of d whose old value is an int, 0 or None; 1 callable in 8 returns None / 0; 1 case in 8 has 70 more base keys; names are prefixes / concatenations of one another; in 4 cases of 7 the mapping has a member literally named "key" - base key, plain keyword or derived key, also re-defining an old one - and about half of the callables take `key` as a parameter) plus 0-2 plain keywords; '
              'called in the drawn order, 2 more drawn orders and the reverse (thorough: about 1 case in 5 is called in ALL orders of its <= 6 keywords, <= 720); oracle: recursive evaluator on the '
              'parameter names, ValueError iff a cycle exists, result class, d unchanged. non-trivial = cyclic, or depth >= 2 with an order that is not topological',
         floor=0.3, class_floors={'cyclic': 0.06, 'deep_and_out_of_order': 0.3, 'derived=6': 0.1, 'derived_key_shadows_old_value': 0.2,
                                  'existing_key_redefined_and_its_dependent_comes_first': 0.25, 'cycle_among_existing_keys': 0.004,
-                                 'falsy_old_value_under_derived_key': 0.15, 'callable_returns_falsy': 0.15, 'base_keys>=64': 0.04, 'no_callables': 0.02}),
+                                 'falsy_old_value_under_derived_key': 0.15, 'callable_returns_falsy': 0.15, 'base_keys>=64': 0.04, 'no_callables': 0.02,
+                                 'member_named_key': 0.15, 'callable_takes_member_named_key': 0.1, 'member_named_key=base': 0.03, 'member_named_key=derived': 0.03,
+                                 'member_named_key=plain_keyword': 0.01, 'callables_with_and_without_key_argument': 0.04}),
     EnumSub('call_perms', enum_call_perms, run_call, strategy=lambda tier: _enum_sample(), quick=3000, chunks=64,
             rule='every digraph without self-loops on 1-4 derived keys (1 + 4 + 64 + 4 096) and a fixed family of 22 graphs each on 5 and 6 keys '
                  '(chains in both label orders, stars, complete dag, tree, diamonds, 2-/3-/n-cycles with tails), every key also reading base keys; each graph in EVERY '
-                 'keyword order (n!) without old values, with old values and with FALSY old values (0 / None) under the derived names; same oracle as call_graph. quick tier samples this domain',
+                 'keyword order (n!) in 5 variants: without old values, with old values, with FALSY old values (0 / None) under the derived names, with derived key 0 literally named "key", with the shared base key literally named "key"; same oracle as call_graph. quick tier samples this domain',
             floor=0.3),
 ]
